@@ -21,20 +21,23 @@ AcceptOp ==
                             /\ ObsOK(Ev.o, PNext(pos, X))
     [] Ev.ev = "resplit" -> Ev.r.k = "unit" /\ ObsOK(Ev.o, pos)             \* re-splitting changes nothing
     [] OTHER -> FALSE
-\* C07: branches by reference / Rc never allocate after creation (creating Rc branches allocates once)
+\* C07: branches by reference / Rc never allocate after creation (creating Rc branches allocates once).  The clause
+\* is stateless and has no environment assumption: it is judged on every event, also after a branch overran the ring.
 HeapOK == (Ev.ev = "resplit" /\ Ev.a.to = "rc") \/ Ev.h = << 0, 0, 0 >>
 
 TReset == /\ Consume /\ Ev.ev = "reset"
           /\ IF AcceptReset THEN pos' = P0 /\ cap' = Ev.cfg.cap /\ skip' = FALSE
              ELSE PrintT(<< "REJECT", l, Ev.ev >>) /\ skip' = TRUE /\ UNCHANGED << pos, cap >>
 TOp == /\ Consume /\ Ev.ev # "reset" /\ ~skip
-       /\ IF ~InAssumption THEN skip' = TRUE /\ UNCHANGED << pos, cap >>       \* outside the property: no claim
+       /\ IF ~InAssumption THEN /\ skip' = TRUE /\ UNCHANGED << pos, cap >>     \* outside C12: no claim on the frames
+                                /\ (IF HeapOK THEN TRUE ELSE PrintT(<< "HEAP", l, Ev.ev >>))
           ELSE IF AcceptOp
             THEN /\ pos' = IF Ev.ev = "next" THEN PNext(pos, X) ELSE pos
                  /\ (IF HeapOK THEN TRUE ELSE PrintT(<< "HEAP", l, Ev.ev >>))
                  /\ UNCHANGED << cap, skip >>
             ELSE PrintT(<< "REJECT", l, Ev.ev >>) /\ skip' = TRUE /\ UNCHANGED << pos, cap >>
-TSkip == Consume /\ Ev.ev # "reset" /\ skip /\ UNCHANGED << pos, cap, skip >>
+TSkip == /\ Consume /\ Ev.ev # "reset" /\ skip /\ UNCHANGED << pos, cap, skip >>
+         /\ (IF HeapOK THEN TRUE ELSE PrintT(<< "HEAP", l, Ev.ev >>))
 TraceInit == l = 1 /\ pos = P0 /\ cap = 1 /\ skip = TRUE
 TraceNext == TReset \/ TOp \/ TSkip
 TraceSpec == TraceInit /\ [][TraceNext]_vars
